@@ -60,7 +60,8 @@ type Task struct {
 	goid  uint64
 
 	spin      int   // scheduling points since the task last blocked
-	idleTicks int   // ticker-only clock jumps since the task began to await quiescence
+	idleOnly  bool  // while awaiting quiescence: nothing but ticker firings have been pending since idleFrom
+	idleTicks int   // ticker-only clock jumps since then
 	idleFrom  int64 // ... and the virtual time at which it began
 	blockWhat string
 	blockObj  any
@@ -500,7 +501,7 @@ func Quiesce() {
 	s := S
 	t := s.cur
 	t.blockWhat = "await quiescence"
-	t.idleTicks, t.idleFrom = 0, s.now
+	t.idleOnly, t.idleTicks, t.idleFrom = false, 0, s.now
 	s.park(t, StQuiesce)
 }
 
@@ -615,8 +616,12 @@ func (s *Sim) loop() {
 						break
 					}
 				}
+				if q != nil && !q.idleOnly {
+					// the grace period starts when nothing but ticking is left
+					q.idleOnly, q.idleTicks, q.idleFrom = true, 0, s.now
+				}
 				switch {
-				case q != nil && q.idleTicks >= 3 && s.now-q.idleFrom >= int64(10*time.Minute):
+				case q != nil && (q.idleTicks >= 3 && s.now-q.idleFrom >= int64(10*time.Minute) || q.idleTicks >= 2000):
 					q.state = StRunnable
 					s.unlock()
 					continue
@@ -625,6 +630,13 @@ func (s *Sim) loop() {
 				case len(s.tasks) > 0 && s.tasks[0].state == StDone:
 					s.unlock()
 					return
+				}
+			}
+			if nx != nil && !s.onlyPeriodic() {
+				for _, t := range s.tasks {
+					if t.state == StQuiesce {
+						t.idleOnly = false
+					}
 				}
 			}
 			if nx != nil {
